@@ -32,8 +32,8 @@ inductive Obj where
   | chr (code : Nat)
   | sym (name : String)              -- includes keywords (name starts with ':')
   | cons (a d : Obj)
-  | vec (elems : Obj)                -- elems: proper list
-  | arr (dims : Obj) (contents : Obj) -- dims: proper list of ints, contents: nested lists
+  | vec (adj : Bool) (elems : Obj)   -- elems: proper list; adj: adjustable
+  | arr (adj : Bool) (dims : Obj) (contents : Obj) -- dims: proper list of ints, contents: nested lists
   | hash (entries : Obj)             -- proper list of (key . value) conses, keys distinct
   deriving DecidableEq, Repr, Inhabited
 
@@ -64,10 +64,14 @@ def isCons : Obj → Bool
   | .cons _ _ => true
   | _ => false
 
-/-- `(make-array 'dims :element-type t :initial-contents 'contents)` -/
-def makeArrayF (dims contents : Obj) : Obj :=
+def ofBool (b : Bool) : Obj := if b then .t else .nil
+
+/-- `(make-array 'dims :element-type t :initial-contents 'contents :adjustable adj)`; make-array
+    makes adjustable arrays unless told otherwise, so the flag is always written -/
+def makeArrayF (dims contents : Obj) (adj : Bool) : Obj :=
   .cons (S "make-array") (.cons (quoteF dims) (.cons (S ":element-type") (.cons .t
-    (.cons (S ":initial-contents") (.cons (quoteF contents) .nil)))))
+    (.cons (S ":initial-contents") (.cons (quoteF contents)
+      (.cons (S ":adjustable") (.cons (ofBool adj) .nil)))))))
 
 /-- `(setf (gethash k table) v)` -/
 def setfF (k v : Obj) : Obj := call2 "setf" (call2 "gethash" k (S "table")) v
@@ -82,6 +86,9 @@ end Obj
 
 open Obj
 
+/-- keywords evaluate to themselves -/
+def isKeyword (s : String) : Bool := s.toList.head? == some ':'
+
 /-! ### the load form -/
 
 mutual
@@ -94,14 +101,14 @@ mutual
     | .flt f b => .flt f b
     | .str s => .str s
     | .chr c => .chr c
-    | .sym s => quoteF (.sym s)
+    | .sym s => if isKeyword s then .sym s else quoteF (.sym s)
     | .cons a d =>
       if isProper d then .cons (S "list") (.cons (loadForm a) (lfElems d))
       else if isCons d then
         call2 "append" (.cons (S "list") (.cons (loadForm a) (lfInit d))) (lfLast d)
       else call2 "cons" (loadForm a) (loadForm d)
-    | .vec es => makeArrayF (.cons (.int (len es)) .nil) es
-    | .arr dims c => makeArrayF dims c
+    | .vec adj es => makeArrayF (.cons (.int (len es)) .nil) es adj
+    | .arr adj dims c => makeArrayF dims c adj
     | .hash es => letTableF (lfFills es)
   /-- load forms of the elements of a chain -/
   def lfElems : Obj → Obj
@@ -157,27 +164,30 @@ def shapeOk : List Nat → Obj → Bool
   | n :: rest, c => isProper c && len c == n && allElems (fun e => shapeOk rest e) c
 
 /-- `(make-array 'dims :element-type t :initial-contents 'contents)`: one dimension gives a vector -/
-def makeArray (dims contents : Obj) : Except Err Obj :=
+def makeArray (dims contents : Obj) (adj : Bool) : Except Err Obj :=
   match dimsOf dims with
   | none => .error .typeErr
   | some ds =>
     if shapeOk ds contents then
-      (if ds.length = 1 then .ok (.vec contents) else .ok (.arr dims contents))
+      (if ds.length = 1 then .ok (.vec adj contents) else .ok (.arr adj dims contents))
     else .error .typeErr
-
-/-- keywords evaluate to themselves -/
-def isKeyword (s : String) : Bool := s.toList.head? == some ':'
 
 /-- the operand of `(quote x)` -/
 def quoteArg : Obj → Except Err Obj
   | .cons x .nil => .ok x
   | _ => .error .undefined
 
-/-- the two operands of `(make-array 'dims :element-type t :initial-contents 'contents)` -/
-def makeArrayArgs : Obj → Option (Obj × Obj)
+def toBool : Obj → Option Bool
+  | .t => some true
+  | .nil => some false
+  | _ => none
+
+/-- the operands of `(make-array 'dims :element-type t :initial-contents 'contents :adjustable adj)` -/
+def makeArrayArgs : Obj → Option (Obj × Obj × Obj)
   | .cons (.cons (.sym "quote") (.cons dims .nil)) (.cons (.sym ":element-type") (.cons .t
-      (.cons (.sym ":initial-contents") (.cons (.cons (.sym "quote") (.cons c .nil)) .nil)))) =>
-    some (dims, c)
+      (.cons (.sym ":initial-contents") (.cons (.cons (.sym "quote") (.cons c .nil))
+        (.cons (.sym ":adjustable") (.cons a .nil)))))) =>
+    some (dims, c, a)
   | _ => none
 
 mutual
@@ -189,8 +199,8 @@ mutual
     | .flt f b => .ok (.flt f b)
     | .str s => .ok (.str s)
     | .chr c => .ok (.chr c)
-    | .vec es => .ok (.vec es)
-    | .arr d c => .ok (.arr d c)
+    | .vec a es => .ok (.vec a es)
+    | .arr a d c => .ok (.arr a d c)
     | .hash es => .ok (.hash es)
     | .sym s => if isKeyword s then .ok (.sym s) else .error .unbound
     | .cons (.sym f) args =>
@@ -200,7 +210,10 @@ mutual
       else if f = "append" then evalTwo args >>= fun (x, y) => appendChain x y
       else if f = "make-array" then
         match makeArrayArgs args with
-        | some (dims, c) => makeArray dims c
+        | some (dims, c, a) =>
+          match toBool a with
+          | some adj => makeArray dims c adj
+          | none => .error .typeErr
         | none => .error .undefined
       else if f = "let" then evalLet args
       else .error .undefined
@@ -243,8 +256,8 @@ def entriesShape : Obj → Bool
 mutual
   def wf : Obj → Bool
     | .cons a d => wf a && wf d
-    | .vec es => isProper es
-    | .arr dims c =>
+    | .vec _ es => isProper es
+    | .arr _ dims c =>
       match dimsOf dims with
       | some ds => ds.length != 1 && shapeOk ds c
       | none => false
